@@ -197,27 +197,31 @@ Proof.
   rewrite compute_atom_weight_eq, single_sector_eq. reflexivity.
 Qed.
 
-Lemma routes_agree_lemma pts idx :
-  compute_weights ROps k M rad Rm pts (seq 0 (Nat.max (length idx - 1) 1)) idx =
-  generate_weights ROps k M rad Rm pts (seq 0 (Nat.max (length idx - 1) 1)) idx.
+Lemma fold_enumerate {X Y} (f : X -> nat -> Y -> X) (dflt : Y) (l : list Y) : forall st acc,
+  fold_left (fun w ki => f w (fst ki) (snd ki)) (combine (seq st (length l)) l) acc =
+  fold_left (fun w k => f w k (nth (k - st) l dflt)) (seq st (length l)) acc.
+Proof.
+  induction l as [|x l IH]; intros st acc; [reflexivity|].
+  cbn [length seq combine fold_left fst snd]. rewrite Nat.sub_diag. cbn [nth]. rewrite IH.
+  apply fold_left_ext_in_seq. intros a i Hi. replace (i - st)%nat with (S (i - S st)) by lia. reflexivity.
+Qed.
+
+(* compute_weights and generate_weights are the same function for EVERY select and segment table *)
+Lemma routes_agree_lemma pts sel idx :
+  compute_weights ROps k M rad Rm pts sel idx = generate_weights ROps k M rad Rm pts sel idx.
 Proof.
   unfold compute_weights, generate_weights. destruct (length idx =? 1)%nat; [reflexivity|].
-  set (sectors := Nat.max (length idx - 1) 1). rewrite seq_length, Nat.eqb_refl. cbn [negb].
+  set (sectors := Nat.max (length idx - 1) 1).
+  destruct (Nat.eqb_spec sectors (length sel)) as [Hs|Hs]; cbn [negb]; [|reflexivity].
   destruct (sectors =? 1)%nat eqn:E1.
   - f_equal. rewrite compute_atom_weight_eq.
-    rewrite <- (map_length (fun d => W d (nth 0%nat (seq 0 sectors) 0%nat)) pts) at 1. rewrite add_at_zeros.
+    rewrite <- (map_length (fun d => W d (nth 0%nat sel 0%nat)) pts) at 1. rewrite add_at_zeros.
     rewrite single_sector_eq. reflexivity.
-  - f_equal. generalize (zeros ROps (length pts)).
-    assert (G : forall st len acc, (st + len <= sectors)%nat ->
-      fold_left (fun weights i => add_at ROps weights (nth i idx 0%nat)
-                   (compute_atom_weight ROps k M rad Rm (slice pts (nth i idx 0%nat) (nth (S i) idx 0%nat)) i)) (seq st len) acc =
-      fold_left (fun weights i => add_at ROps weights (nth i idx 0%nat)
-                   (map (fun row => wrow ROps row (nth i (seq 0 sectors) 0%nat))
-                        (slice (map (prods_gw ROps k M rad Rm) pts) (nth i idx 0%nat) (nth (S i) idx 0%nat)))) (seq st len) acc).
-    { intros st len; revert st; induction len as [|len IH]; intros st acc Hb; [reflexivity|].
-      cbn [seq fold_left]. rewrite compute_atom_weight_eq, slice_map, map_map.
-      rewrite seq_nth by lia. cbn [plus]. apply IH. lia. }
-    intros acc. apply G. lia.
+  - f_equal.
+    rewrite (fold_enumerate (fun weights k0 i => add_at ROps weights (nth k0 idx 0%nat)
+               (compute_atom_weight ROps k M rad Rm (slice pts (nth k0 idx 0%nat) (nth (S k0) idx 0%nat)) i)) 0%nat sel 0%nat).
+    rewrite <- Hs. apply fold_left_ext_eq. intros a i. rewrite Nat.sub_0_r.
+    rewrite compute_atom_weight_eq, slice_map, map_map. reflexivity.
 Qed.
 
 (* ---- chunked evaluation = unchunked evaluation ---- *)
